@@ -7,6 +7,7 @@ namespaces; sync handlers, and for AsyncClient coroutine handlers and
 coroutine callbacks that pause."""
 from sim import sio
 from sim.world import make_world
+from sim.choices import derive
 from sim.util import (typed_eq, wire_norm, expect_args, gen_value,
                       shape_call_result)
 from .common import (V, Registry, gen_registry, install_registry, ret_for,
@@ -141,10 +142,17 @@ def _run(case, cfg, w):
     nontrivial = False
     mark_rx = base
 
+    cb_inv = {}
+
     def make_cb(tag):
         def maybe_raise():
-            if cfg.get('cb_raise') and w.choices.chance(
-                    'faults', cfg['cb_raise'], 8, 'cb_raise'):
+            n_inv = cb_inv.get(tag, 0)
+            cb_inv[tag] = n_inv + 1
+            if cfg.get('cb_raise') and (
+                    derive(case['seed'], 'cb_raise', repr(tag), n_inv) % 8
+                    < cfg['cb_raise'] if cfg.get('raise_by_content') else
+                    w.choices.chance('faults', cfg['cb_raise'], 8,
+                                     'cb_raise')):
                 w.rec.count('fault.callback_raise')
                 raise RuntimeError('injected callback failure')
         if cfg['coro_cb'] and w.mode == 'async':
